@@ -607,7 +607,11 @@ def overrides(ch, prog, natives=None, wide=True):
         if not ch.bool():
             continue
         if n in intpos:
-            env[n] = ch.int(0, 7)
+            declared = dict((a, b) for a, b in prog["lets"])[n]
+            near = [declared + 1, declared - 1, declared + 2] if is_int(declared) else []
+            env[n] = ch.pick(near + near + [ch.int(0, 7)]) if near else ch.int(0, 7)
+            if not is_int(env[n]) or env[n] < 0:
+                env[n] = ch.int(0, 7)
             if ch.int(0, 3) == 0:
                 env[n] = float(env[n])  # override dictionaries are documented as dict[str, float]
         else:
